@@ -196,7 +196,9 @@ def check_pair(res, objects, s1, r1, s2, r2, salt, info):
             res.bad("C14/serialize/content", {**info, "which": tag, "diff": pddl.state_diff(s, back)})
             return
     domain, world, _ = setup(objects)
-    okp, parsed = lib_call(lambda: [TrajectoryParser(domain, None).parse_state(sexpr.read(l.serialize())[1:]) for l in (l1, l2)])
+    # one parser object reads both texts in every other case (states read earlier stay what they were)
+    shared = TrajectoryParser(domain, None) if salt % 2 == 0 else None
+    okp, parsed = lib_call(lambda: [(shared or TrajectoryParser(domain, None)).parse_state(sexpr.read(l.serialize())[1:]) for l in (l1, l2)])
     if not okp:
         res.bad(f"C14/reparse/exception:{parsed.key}", {**info, "error": repr(parsed)})
         return
